@@ -23,7 +23,7 @@ THEOREMS = ["IwModel.C18." + n for n in (
     "hmap_step_refines", "hmap_refines_assoc", "hmap_bucket_bounds", "hmap_iter_spec", "hmap_clear_frees_each_once",
     "lru_evicts_oldest", "lru_count_bound",
     "ulist_step_refines", "ulist_refines_list", "ulist_clone_window", "plist_step_refines", "plist_handed_out",
-    "sorted_find_iff", "sorted_insert_sorted", "sorted_remove_spec",
+    "sorted_find_iff", "sorted_insert_sorted", "sorted_remove_spec", "ring_last_n", "xstr_refines_bytes", "pool_alloc_bump",
     "avl_insert_refines", "avl_remove_refines", "avl_bst", "avl_balanced", "avl_lookup_iff", "avl_bounds_spec", "avl_refines_set",
 )]
 
